@@ -65,6 +65,7 @@ type C struct {
 	samples     []any
 	counters    map[string]int64
 	required    []string
+	wanted      []string
 	violations  int
 	known       map[string]int
 	inconcl     []string
@@ -192,6 +193,11 @@ func (c *C) Get(name string) int64 { c.mu.Lock(); defer c.mu.Unlock(); return c.
 
 // Require makes the run inconclusive if the named counter is still zero at the end.
 func (c *C) Require(names ...string) { c.mu.Lock(); c.required = append(c.required, names...); c.mu.Unlock() }
+
+// Want names coverage counters for rare race windows / patterns whose absence in ONE run is reported (evidence
+// "coverage_gaps", a COVERAGE-GAP line) but does not make the run inconclusive: whether a seed reaches such a window is a
+// property of the seed, not of the code under test. Counters without which the monitor has observed nothing belong in Require.
+func (c *C) Want(names ...string) { c.mu.Lock(); c.wanted = append(c.wanted, names...); c.mu.Unlock() }
 
 // Extra stores an arbitrary value in coverage.
 func (c *C) Extra(k string, v any) { c.mu.Lock(); c.extra[k] = v; c.mu.Unlock() }
@@ -357,6 +363,18 @@ func (c *C) finish() {
 		cov["required_counters_zero"] = missing
 	}
 
+	var gaps []string
+
+	for _, r := range c.wanted {
+		if c.counters[r] == 0 {
+			gaps = append(gaps, r)
+		}
+	}
+
+	if len(gaps) > 0 {
+		cov["coverage_gaps"] = gaps
+	}
+
 	if len(c.known) > 0 {
 		cov["known_findings_hit"] = c.known
 	}
@@ -406,6 +424,10 @@ func (c *C) finish() {
 
 	for _, k := range keys {
 		fmt.Printf("  counter %-40s %d\n", k, c.counters[k])
+	}
+
+	if len(gaps) > 0 {
+		fmt.Printf("COVERAGE-GAP property=%s windows not reached by this seed: %v\n", c.ID, gaps)
 	}
 
 	switch {
